@@ -110,7 +110,7 @@ fn stream_str(bytes: &[u8], want_f: bool, want_c: bool) -> (String, Result<Strin
     (s, st, d)
 }
 
-pub struct MinOut { pub status: String, pub shard: Option<MDBMinimalShard>, pub views: Delivered, pub ser: Vec<u8> }
+pub struct MinOut { pub status: String, pub shard: Option<MDBMinimalShard>, pub views: Delivered, pub ser: Vec<u8>, pub ret: usize }
 
 fn run_min(bytes: &[u8], incl_f: bool, incl_c: bool, mode: Mode) -> Result<MinOut, String> {
     catch_unwind(AssertUnwindSafe(|| {
@@ -121,15 +121,14 @@ fn run_min(bytes: &[u8], incl_f: bool, incl_c: bool, mode: Mode) -> Result<MinOu
             Mode::AsyncDribble(s) => { let mut rd = Dribble::new(bytes, s); futures::executor::block_on(MDBMinimalShard::from_reader_async(&mut rd, incl_f, incl_c)) }
         };
         match r {
-            Err(e) => MinOut { status: format!("err:{}", err_kind(&e)), shard: None, views: Delivered::default(), ser: vec![] },
+            Err(e) => MinOut { status: format!("err:{}", err_kind(&e)), shard: None, views: Delivered::default(), ser: vec![], ret: 0 },
             Ok(s) => {
                 let mut d = Delivered::default();
                 for i in 0..s.num_files() { let (raw, acc) = file_view_parts(&s.file(i)); d.files.push(raw); d.facc.extend(acc); }
                 for i in 0..s.num_cas() { let (raw, acc) = cas_view_parts(&s.cas(i)); d.cas.push(raw); d.cacc.extend(acc); }
                 let mut ser = Vec::new();
-                let n = s.serialize(&mut ser).unwrap();
-                assert_eq!(n + 200, ser.len(), "MDBMinimalShard::serialize returns the number of bytes before the footer");
-                MinOut { status: "ok".into(), shard: Some(s), views: d, ser }
+                let ret = s.serialize(&mut ser).unwrap();
+                MinOut { status: "ok".into(), shard: Some(s), views: d, ser, ret }
             }
         }
     })).map_err(|_| "panic".to_string())
@@ -233,6 +232,9 @@ fn check_shard(ctx: &mut Ctx, rng: &mut Rng, bytes: &[u8], want_files: &[MDBFile
                 let exp_f: &[Vec<u8>] = if f { &wf } else { &[] };
                 let exp_c: &[Vec<u8>] = if c { &wc } else { &[] };
                 if o.views.files != exp_f || o.views.cas != exp_c { ctx.fail("C09", "readers-disagree", format!("minimal reader ({name}) holds records different from the content of a {label}"), replay.to_string()); }
+                // observation: `MDBMinimalShard::serialize` returns the byte count *before* the 200-byte footer it then writes
+                if o.ret + 200 == o.ser.len() { ctx.stat("min_serialize_return_excludes_footer"); } else if o.ret == o.ser.len() { ctx.stat("min_serialize_return_is_total"); }
+                else { ctx.fail("C09", "readers-disagree", format!("MDBMinimalShard::serialize returned {} for {} bytes written ({label})", o.ret, o.ser.len()), replay.to_string()); }
                 // re-serialized minimal shard through the seekable reader
                 let seek = catch_unwind(AssertUnwindSafe(|| {
                     let si = MDBShardInfo::load_from_reader(&mut Cursor::new(&o.ser))?;
